@@ -331,6 +331,35 @@ fn chain_cases(_profile: &'static str) -> impl Fn(Tier) -> BoxedStrategy<Case> +
     }
 }
 
+/// "Moderate magnitude" applies to what every view of a chain is delivered: the outputs of the inner view(s) of the outermost node
+/// must be 0 or within [1e-9, 1e12] (an inner filter whose impulse response has decayed to 1e-43 hands its wrapper a subnormal
+/// number; dividing by it overflows f32 - that is outside the property's input domain, not a defect of the wrapper).
+pub fn inner_outputs_moderate(spec: &Spec, xs: &[Rat], f32_leg: bool) -> bool {
+    fn ok(v: f64) -> bool {
+        v == 0.0 || (v.is_finite() && v.abs() >= 1e-9 && v.abs() <= 1e12)
+    }
+    let children: Vec<&Spec> = spec.children().into_iter().take(match spec {
+        Spec::Eft(..) | Spec::Pfe(..) => 1, // the embedded average is not fed raw input
+        _ => 2,
+    }).collect();
+    for c in children {
+        if matches!(c, Spec::Echo | Spec::Constant(_)) {
+            continue;
+        }
+        let good = guarded(|| {
+            if f32_leg {
+                crate::exec::run_f32(c, &crate::exec::f32s(xs)).into_iter().flatten().all(|v| ok(v as f64))
+            } else {
+                crate::exec::run_f64(c, &crate::exec::f64s(xs)).into_iter().flatten().all(ok)
+            }
+        });
+        if good != Ok(true) {
+            return false;
+        }
+    }
+    true
+}
+
 fn chain_check(profile: &'static str) -> impl Fn(&Case) -> Verdict + Send + Sync {
     let inner = check(profile);
     move |case: &Case| {
@@ -340,7 +369,17 @@ fn chain_check(profile: &'static str) -> impl Fn(&Case) -> Verdict + Send + Sync
         if !ok {
             return Verdict::Discard("tree outside the documented input domain (Drawdown/LnReturn over a non-positive chain, or possibly-zero divisor)".into());
         }
-        inner(case)
+        match inner(case) {
+            Verdict::Fail { sig, msg } => {
+                // a panic of the outer view only counts if what it was delivered was of moderate magnitude
+                if !inner_outputs_moderate(spec, &case.xs, case.ints.first().copied().unwrap_or(0) == 1) {
+                    Verdict::Discard("the inner view's outputs leave the moderate range (0 or 1e-9..1e12), or the inner view itself fails".into())
+                } else {
+                    Verdict::Fail { sig, msg }
+                }
+            }
+            other => other,
+        }
     }
 }
 
